@@ -121,16 +121,16 @@ def configs(tier):
         cs.append(dict(filter=True, clock=60, fs_only=False, mode="rep-full", addrs=[0x2A], gaps=0, starts=[0], rep=8, addr2="same", third="reduced"))
         cs.append(dict(filter=False, clock=12, fs_only=True, mode="rep-full", addrs=[0], gaps=0, starts=[0], rep=8, third="reduced"))
     else:
-        for i in range(8):
+        for i in range(16):          # every 7-bit device address, one packet over the full alphabet
             cs.append(dict(filter=True, clock=60 if i % 2 == 0 else 12, fs_only=(i % 2 == 1), mode="full",
-                           addrs=list(range(16 * i, 16 * i + 16)), gaps=2))
+                           addrs=list(range(8 * i, 8 * i + 8)), gaps=2))
         cs.append(dict(filter=True, clock=60, fs_only=False, mode="full-rep", addrs=[0x2A], gaps=2, starts=[0, 2], rep=8))
         cs.append(dict(filter=True, clock=12, fs_only=True, mode="full-rep", addrs=[0x55], gaps=2, starts=[0, 1], rep=8))
-        cs.append(dict(filter=False, clock=60, fs_only=False, mode="full-rep", addrs=[0x7F], gaps=2, starts=[0, 2], rep=8))
+        cs.append(dict(filter=False, clock=60, fs_only=False, mode="full-rep", addrs=[0x7F], gaps=1, starts=[0, 2], rep=8))
         for a in (0, 0x2A, 0x7F):
-            cs.append(dict(filter=True, clock=60, fs_only=False, mode="rep-full", addrs=[a], gaps=1, starts=[0, 2]))
-        cs.append(dict(filter=True, clock=12, fs_only=True, mode="rep-full", addrs=[1], gaps=1, starts=[0, 1]))
-        cs.append(dict(filter=False, clock=60, fs_only=False, mode="rep-full", addrs=[0x15], gaps=1, starts=[0, 2]))
+            cs.append(dict(filter=True, clock=60, fs_only=False, mode="rep-full", addrs=[a], gaps=0, starts=[0], rep=8, addr2="same"))
+        cs.append(dict(filter=True, clock=12, fs_only=True, mode="rep-full", addrs=[1], gaps=0, starts=[0], rep=12, addr2="same"))
+        cs.append(dict(filter=False, clock=60, fs_only=False, mode="rep-full", addrs=[0x15], gaps=0, starts=[0], rep=8))
     return cs
 
 
@@ -139,7 +139,9 @@ class TokenSpec(Spec):
 
     def __init__(self, cfg, tier):
         super().__init__(cfg, tier)
-        self.time_budget = 240 if tier == "quick" else 870      # wall clock on a shared machine; sized for <= 30 s CPU (quick)
+        # wall-clock caps, generous because the machine is shared; the configurations are sized for <= ~20 s (quick) and
+        # <= ~90 s (thorough) of CPU each and close well before the cap on an idle machine
+        self.time_budget = 900 if tier == "quick" else 3000
         self.max_states = 8_000_000
         self.starts = set(cfg.get("starts", [0]))
         self.filter = cfg["filter"]
